@@ -23,6 +23,7 @@ pub const ALPHABET: &[&str] = &[
     "{pasfmt off}", "// pasfmt on\n",
     // unknown / exotic
     "?", "\"", "\u{3000}", "é",
+    "\u{3001}", "\u{300c}B\u{300d}", "\u{3002}", "A\u{3001}B",
 ];
 
 /// construct-opening sub-alphabet for deeper exhaustive enumeration
@@ -169,6 +170,8 @@ pub fn byte_soup(rng: &mut Rng, max_len: usize) -> String {
         'a', 'Z', '_', '0', '9', ' ', ' ', '\n', '\r', '\t', '\u{0}', '\u{1}', '\u{b}', '\u{1f}', '\u{7f}', '\u{80}', '\u{a0}',
         '\u{3000}', '\u{feff}', '\u{1F600}', 'é', '漢', '\'', '"', '{', '}', '(', ')', '*', '/', '$', '#', '&', '%', '^', '@',
         '<', '>', '=', ':', ';', '.', ',', '[', ']', '+', '-', '\\', '?', '!', '`', '~', '|',
+        // neighbours of U+3000 in its block (CJK punctuation), other Unicode spaces and separators
+        '\u{3001}', '\u{3002}', '\u{300c}', '\u{303f}', '\u{2fff}', '\u{2003}', '\u{2028}', '\u{85}', '\u{b2}',
     ];
     let n = rng.below(max_len + 1);
     let mut s = String::new();
